@@ -26,7 +26,7 @@ ASSUMPTIONS = ["documented variable counts are the closed forms listed in C10.py
                "clauses inserted with check=False by user code are outside the statement; the library's own check=False insertions are watched"]
 REQUIRED = ["hook_clause_events", "hook_group_events", "final_scans", "documented_counts_checked", "chains_applied",
             "cli_entries", "opb_entries", "interleavings", "lib_entries", "builder_insertions", "cli_documented_counts_checked", "chains_after_interleaving",
-            "groups_on_a_reused_graph_object", "families_on_a_reused_graph_object"]
+            "groups_on_a_reused_graph_object", "families_on_a_reused_graph_object", "lazy_batches_creating_variables"]
 CASE_TIMEOUT = {"quick": 300, "thorough": 1800}
 
 
@@ -463,7 +463,7 @@ def case_interleave(ctx, rseed, count):
                 idx = r.randrange(len(Fs))
                 F, K = Fs[idx], Ks[idx]
                 n = F.number_of_variables()
-                op = r.choice(["clause", "clause", "raise", "variable", "block", "comb", "perm", "words", "bip", "graph",
+                op = r.choice(["clause", "clause", "lazy-batch", "raise", "variable", "block", "comb", "perm", "words", "bip", "graph",
                                "digraph", "mapping", "binmap", "constraint", "builder", "builder", "labels", "peek",
                                "shared-graph", "shared-graph", "edit-graph", "edit-graph", "deepcopy", "pickle"])
                 hist.append(op)
@@ -542,6 +542,30 @@ def case_interleave(ctx, rseed, count):
                             ctx.call(getattr(F, name), lits, c)
                         ctx.count("builder_insertions")
                     continue
+                if op == "lazy-batch":
+                    # one add_clauses_from / add_constraints_from call whose argument is a generator that goes on
+                    # creating variables and groups in the same formula between the clauses it yields
+                    inside = []
+
+                    def batch(F=F, K=K):
+                        for _step in range(r.randint(1, 4)):
+                            top_ = F.number_of_variables() + r.choice([0, 1, 3])
+                            if top_:
+                                cl_ = [r.choice([1, -1]) * r.randint(max(1, top_ - 2), top_) for _ in range(r.randint(1, 3))]
+                                yield cl_ if K is CNF or how_ == "clauses" else [(1, l) for l in cl_] + [">=", 1]
+                            what = r.choice(["variable", "block", "none", "comb"])
+                            inside.append(what)
+                            if what == "variable":
+                                F.new_variable("inside")
+                            elif what == "block":
+                                F.new_block(r.randint(1, 2), r.randint(1, 2))
+                            elif what == "comb":
+                                F.new_combinations(3, 2)
+                    how_ = "clauses" if K is CNF or r.random() < 0.5 else "constraints"
+                    ctx.call(F.add_clauses_from if how_ == "clauses" else F.add_constraints_from, batch())
+                    hist[-1] = "lazy-batch(%s:%s)" % (how_, ",".join(inside))
+                    ctx.count("lazy_batches_creating_variables")
+                    continue
                 if op == "clause":
                     top = n + r.choice([0, 0, 1, 3])
                     if top:
@@ -570,6 +594,12 @@ def case_interleave(ctx, rseed, count):
                     L_, R_ = r.randint(1, 3), r.choice([5, 16, 17, 18, 33, 48, 49, 70])
                     E_ = [(u, v) for u in range(1, L_ + 1) for v in range(1, R_ + 1) if r.random() < 0.9]
                     B = computed_bipartite(L_, R_, E_, order="preference", base="BaseBipartiteGraph")
+                    if r.random() < 0.5:
+                        # neighbourhoods answered as range objects (stepped, descending, not starting at 1)
+                        from ..ducks import range_bipartite
+                        B, E_ = range_bipartite(r.randint(1, 4), r.choice([1, 2, 5, 6, 9]), r.choice(["parity", "descending", "window"]))
+                        R_ = B.right_order()
+                        ctx.count("groups_on_a_graph_with_range_neighbourhoods")
                     st, grp = ctx.call(F.new_bipartite_edges if op == "bip" else F.new_sparse_mapping, B)
                     ctx.count("groups_on_a_user_class_graph")
                     if st == "ok":
